@@ -1,0 +1,123 @@
+/*
+ * SPDX-License-Identifier: Apache-2.0
+ */
+
+package ristretto
+
+// Identifiers of the verification hook sites. They are plain constants and
+// carry no behaviour: every hook that takes one of them compiles to nothing
+// unless the package is built with the `verif` build tag (see verif_off.go and
+// verif_on.go).
+
+// Yield sites: points at which a deterministic simulator may preempt the
+// calling goroutine. One site precedes every outermost lock acquisition and
+// every channel hand-off, and one follows every operation that may block.
+const (
+	verifSiteNone = iota
+	// cache.go: client side
+	verifSiteWaitSend     // Wait: before the marker is enqueued
+	verifSiteWaitRecv     // Wait: marker enqueued, before blocking on it
+	verifSiteWaitDone     // Wait: released
+	verifSiteSetDetached  // SetWithTTL: Update returned, before onExit(prev)
+	verifSiteSetSend      // SetWithTTL: before the non-blocking enqueue
+	verifSiteDelDetached  // Del: immediate delete done, before onExit(prev)
+	verifSiteDelSend      // Del: before the tombstone is enqueued
+	verifSiteDelSent      // Del: tombstone enqueued
+	verifSiteGetPush      // Get: before the access is recorded
+	verifSiteClearStart   // Clear: before asking the applier to stop
+	verifSiteClearStopReq // Clear: stop sent, before waiting for done
+	verifSiteClearStopped // Clear: applier has stopped
+	verifSiteClearDrain   // Clear: before each non-blocking receive of the drain
+	verifSiteClearMetrics // Clear: before metrics are reset
+	verifSiteClearRestart // Clear: before the applier is restarted
+	verifSiteCloseStart   // Close: Clear done, before asking the applier to stop
+	verifSiteCloseStopReq // Close: stop sent, before waiting for done
+	verifSiteCloseStopped // Close: applier has stopped
+	// cache.go: applier
+	verifSiteApplierItem   // an item was received
+	verifSiteApplierTick   // a tick was received
+	verifSiteApplierStop   // stop was received, before done is sent
+	verifSiteApplierReject // before onReject
+	verifSiteApplierVictim // before a victim is removed from the map
+	// store.go
+	verifSiteStoreGet
+	verifSiteStoreExpiration
+	verifSiteStoreSet
+	verifSiteStoreDel
+	verifSiteStoreUpdate
+	verifSiteStoreClearShard
+	verifSiteStoreIterShard
+	// ttl.go
+	verifSiteTTLCleanup    // before the bucket grab
+	verifSiteTTLCleanupKey // per key, before the expiration check
+	verifSiteTTLClear
+	// policy.go
+	verifSitePolicyPush
+	verifSitePolicyAdd
+	verifSitePolicyHas
+	verifSitePolicyDel
+	verifSitePolicyCap
+	verifSitePolicyUpdate
+	verifSitePolicyCost
+	verifSitePolicyClear
+	verifSitePolicyMaxCost
+	verifSitePolicyUpdateMaxCost
+	verifSitePolicyItems     // policy goroutine: batch received, before lock
+	verifSitePolicyStop      // policy goroutine: stop received
+	verifSitePolicyCloseReq  // Close: before stop is sent
+	verifSitePolicyCloseWait // Close: stop sent
+	verifSitePolicyClosed    // Close: goroutine has stopped
+	verifSiteCount
+)
+
+// Kinds of background goroutine that register themselves with the simulator.
+const (
+	verifTaskApplier = 1
+	verifTaskPolicy  = 2
+)
+
+// Select cases of the two background loops (bit numbers of the readiness mask).
+const (
+	verifCaseItems = 0
+	verifCaseTick  = 1
+	verifCaseStop  = 2
+)
+
+// Map iteration seams.
+const (
+	verifRangeSample  = 1 // sampledLFU.fillSample
+	verifRangeCleanup = 2 // expirationMap.cleanup, keys of one bucket
+	verifRangeClear   = 3 // lockedMap.Clear
+	verifRangeIter    = 4 // shardedMap.IterValues
+)
+
+// Events: observations handed to the simulator without a preemption point.
+const (
+	verifEvApplierNew      = 1  // key, accounted cost: about to ask the policy
+	verifEvApplierAdded    = 2  // key, 1/0 admitted, number of victims
+	verifEvPolicyVictim    = 3  // under the policy lock: victim key, its estimate, incoming estimate
+	verifEvApplierUpdate   = 4  // key, cost
+	verifEvApplierDelete   = 5  // key: tombstone about to be applied
+	verifEvApplierDone     = 6  // key, flag: item fully applied
+	verifEvApplierMarker   = 7  // a Wait marker was released by the applier
+	verifEvSweepBegin      = 8  // Cleanup begins
+	verifEvSweepEnd        = 9  // Cleanup ended
+	verifEvSweepKey        = 10 // key: sweep is about to remove it
+	verifEvClearMarker     = 11 // a Wait marker was released by Clear
+	verifEvClearDrained    = 12 // key, flag: item dropped by Clear's drain
+	verifEvSetDropped      = 13 // key, flag: enqueue failed (buffer full)
+	verifEvSetQueued       = 14 // key, flag: enqueued
+	verifEvSweepSkipped    = 15 // key: sweep left the key alone
+	verifEvApplierStarted  = 16
+	verifEvApplierReturned = 17
+	verifEvPolicyAdd       = 18 // under the policy lock: key, cost; decision starts
+	verifEvPolicyReject    = 19 // under the policy lock: key, incoming estimate, minimum estimate
+	verifEvPolicyFits      = 20 // under the policy lock: key admitted on the fast path
+)
+
+func verifB2I(b bool) int64 {
+	if b {
+		return 1
+	}
+	return 0
+}
